@@ -3710,6 +3710,14 @@ class BindMacro(Macro):
             if not (hyp.is_equals() and hyp.lhs in l_vars):
                 remain_hyps.append(hyp)
 
+        # The variables that become bound may not occur free on the other side,
+        # nor in the hypotheses that remain.
+        for lv, rv in zip(l_vars, r_vars):
+            if lv != rv and (l_bd.occurs_var(rv) or r_bd.occurs_var(lv)):
+                raise VeriTException("bind", "bound variable occurs free on the other side")
+            if any(hyp.occurs_var(lv) or hyp.occurs_var(rv) for hyp in remain_hyps):
+                raise VeriTException("bind", "bound variable occurs free in a remaining hypothesis")
+
         return Thm(goal, tuple(remain_hyps))
 
     def get_proof_term(self, args, prevs) -> ProofTerm:
